@@ -88,6 +88,18 @@ def step (cfg : Cfg) (st : St) : List String → St × String
       | some h => ({ st with hashers := setSlot st.hashers s (h.setDatalen v) }, "ok")
       | none => (st, "bad-op")
     | _, _ => (st, "bad-op")
+  | ["jh", "inject", slot, n, cv, datalen, buf] =>
+    -- C17: a hasher with the given 128-byte chaining value (format of `getstate`), `datalen` and
+    -- buffered bytes: the state a real instance was observed in after streaming a long prefix
+    match slot.toNat?, n.toNat?, bytesOfHex cv, datalen.toNat?, bytesOfHex buf with
+    | some s, some n, some cv, some dl, some buf =>
+      if (n = 224 ∨ n = 256 ∨ n = 384 ∨ n = 512) ∧ cv.length = 128 ∧ buf.length < 64 ∧ dl < 2 ^ 64 then
+        let h : Hasher := { n := n, state := Compressor.new cv,
+                            buffer := { buf := CC.Buffer.splice (List.replicate 64 0) 0 buf, pos := buf.length },
+                            datalen := dl }
+        ({ st with hashers := setSlot st.hashers s h }, "ok")
+      else (st, "bad-op")
+    | _, _, _, _, _ => (st, "bad-op")
   | ["jh", "getctr", slot] =>
     match slot.toNat? with
     | some s =>
